@@ -2511,8 +2511,15 @@ class CompressedCertificate(Certificate):
 
         try:
             if self.compression_algo == CertificateCompressionAlgorithm.zlib:
-                decompressed_msg = zlib.decompress(
-                    compressed_msg, 15, expected_length)
+                # the third argument of zlib.decompress() is only the initial
+                # buffer size, not a limit: bound the output explicitly
+                decompressor = zlib.decompressobj(15)
+                decompressed_msg = decompressor.decompress(
+                    compressed_msg, expected_length + 1)
+                if decompressor.unconsumed_tail or \
+                        not getattr(decompressor, "eof", True):
+                    raise ValueError("Decompressed message too long or "
+                                     "compressed stream truncated")
             elif self.compression_algo == \
                     CertificateCompressionAlgorithm.brotli:
                 if compression_algo_impls["brotli_accepts_limit"]:
